@@ -5,7 +5,9 @@ CONSTANTS
   NDown = 2
   MaxFaults = 2
   MaxDrops = 0
+  MaxStalls = 0
 SPECIFICATION Spec
 INVARIANTS TypeOK PrefixDelivered OnlyOwnSegments OneAcceptPerSession OneCurrent NeverDead
 
+PROPERTIES NoLossBeforeFraming
 CHECK_DEADLOCK FALSE
